@@ -103,6 +103,42 @@ def hist_ctor_cases(alpha, depth, first=None):
     return out
 
 
+U_PATTERNS = ["a", "(?:)", ".", "\\u{1F600}|$", "a*", "$", "[^a]", "(.)|b"]
+U_FLAGS = ["u", "gu", "yu", "giu"]
+U_OPS = {"e1": ("exec", "s1"), "e2": ("exec", "s2"), "t1": ("test", "s1"), "s0": ("set", "0"), "s1": ("set", "1"), "s2": ("set", "2"),
+         "s3": ("set", "3"), "s4": ("set", "4"), "r": ("read", None)}
+U_PRE = 'var s1 = "a\U0001F600", s2 = "\U0001F600b"; var m, r; '      # raw characters: the engine does not combine two escapes into one character
+U_SUMMARY = 'm === null ? null : [m[0], m.length > 1 ? (m[1] === undefined ? "undef" : m[1]) : "-"]'      # no .length / .index: strings are indexed by code point (documented)
+
+
+def hist_unicode_cases(depths=(1, 2, 3)):
+    """lastIndex arithmetic on subjects with characters outside the BMP: positions are UTF-16 code units, the end of the subject
+    (3) is a valid place for an empty match, the middle of a pair (2) is not a character boundary"""
+    out = []
+    for p in U_PATTERNS:
+        for f in U_FLAGS:
+            for d in depths:
+                for seq in itertools.product(list(U_OPS), repeat=d):
+                    if d == 3 and not (seq[0][0] == "s" and seq[1][0] in "et"):
+                        continue            # depth 3: preset, search, anything
+                    steps = []
+                    for o in seq:
+                        kind, arg = U_OPS[o]
+                        if kind == "exec":
+                            body = "m = re.exec(%s); r = %s;" % (arg, U_SUMMARY)
+                        elif kind == "test":
+                            body = "r = re.test(%s);" % arg
+                        elif kind == "set":
+                            body = 're.lastIndex = %s; r = "set";' % arg
+                        else:
+                            body = "r = re.lastIndex;"
+                        steps.append("try { " + body + CATCH)
+                    src = U_PRE + "var re = /%s/%s; " % (p, f) + "".join(steps) + "1"
+                    cid = "hist unicode /%s/%s : %s" % (p, f, " ".join(seq))
+                    out.append((cid, {"src": src, "tl": TL, "h": [[p], f, list(seq)]}))
+    return out
+
+
 # ------------------------------------------------------------------------------------- string methods
 
 def gen_patterns():
@@ -370,7 +406,7 @@ def extra_coverage(res):
 def nontrivial(cid, payload, exp):
     if "h" in payload:
         # a history is non-trivial when it calls the matcher at least once
-        return any(OPS[o][0] in ("exec", "test") for o in payload["h"][2])
+        return any(o[0] in "et" for o in payload["h"][2])
     # a string-method batch is non-trivial when at least one call finds a match / changes the subject
     method = payload["m"][0]
     for e in entries(exp):
@@ -428,6 +464,9 @@ def core_spaces():
                H_RULE + "new RegExp, every depth-4 history over the 8-operation core (exec/test x s1/s2, lastIndex = 0 1 2 5)",
                "6 flags x 8^4 programs x 6 patterns"),
     ]
+    sp.append(_space("c20_hist_unicode", hist_unicode_cases,
+                     H_RULE + "subjects 'a\\u{1F600}' and '\\u{1F600}b', 8 patterns x flags u gu yu giu, every history of depth 1..2 over exec / "
+                     "test / lastIndex = 0..4 / read, and depth 3 of the form preset, search, anything", "32 x (9 + 81 + 5 x 3 x 9)"))
     for m in ("match", "search", "replace", "replaceAll"):
         sp.append(_space("c20_sm_%s" % m, lambda m=m: sm_grid_cases(m, GROUPS),
                          S_RULE + "%s x %d patterns x flags '' g y gi x preset 0/2 x subjects over {a,b} len <= 4"
